@@ -80,6 +80,13 @@ def mk_pos(vals):
   return c
 
 
+def _tv_reset(vals):
+  # a TaggedValue that had a value which was then reset to NO_VALUE
+  tv = N.TagA.new('had-a-value')
+  tv.value = fdl.NO_VALUE
+  return tv
+
+
 def kinds():
   K = shapes.Kind
   return {
@@ -98,6 +105,7 @@ def kinds():
       'tmp': K('tmp', 2, False, lambda v: N.Tmp(*v)),
       'tv': K('tv', 1, True, lambda v: (N.TagA.new() if v[0] is shapes.UNSET
                                         else N.TagA.new(v[0])), True),
+      'tvnv': K('tvnv', 0, False, _tv_reset, True),
   }
 
 
@@ -118,6 +126,7 @@ def bounds(tier):
         [['pos', 'list2'], 2, 2],
         [['mut2', 'list2', 'tv'], 3, 1],
         [['tmp', 'cfg', 'list2'], 3, 1],
+        [['cfg', 'list2', 'tvnv', 'tv'], 3, 1],
     ], dc_depth=2)
   return dict(families=[
       [FULL + ['dict1', 'parkw'], 2, 3],
@@ -125,6 +134,7 @@ def bounds(tier):
       [['mut2', 'par', 'list2', 'tv'], 3, 3],
       [['cfg', 'mut', 'par', 'list2'], 3, 3],
       [['tmp', 'cfg', 'par', 'list2'], 3, 2],
+      [['cfg', 'list2', 'tvnv', 'tv'], 3, 2],
   ], dc_depth=3)
 
 
@@ -287,6 +297,13 @@ def check_case(shape, tagv, res, only=None):
     res.outcomes[f'{name}:{base[0]}'] += 1
     if base[0] != 'ok':
       res.counters['original_not_buildable'] += 1
+      # a configuration that cannot be built (e.g. a tagged value that was
+      # never filled in) does not become buildable by being transformed
+      got = build_canon(out)
+      if got[0] == 'ok':
+        res.violation(f'C20/unbuildable-original-builds-after/{name}',
+                      f'{case}: original raises {base[1]}, transformed '
+                      f'{out!r} builds {got[1]}', case)
       continue
     sub = trim_class(shape) if name.startswith('with_defaults_trimmed') else ''
     got = build_canon(out)
@@ -375,14 +392,23 @@ def run_inline(res):
                 'program': prog.__name__, 'args': list(args)}
         res.states += 1
         res.nontrivial += 1
-        try:
-          # deepest first so that paths stay valid
-          for p in sorted(subset, key=len, reverse=True):
-            auto_config.inline(follow(c, p))
+        rejected = False
+        # deepest first so that paths stay valid
+        for p in sorted(subset, key=len, reverse=True):
+          node = follow(c, p)
+          before_node = canon.canon_cfg(c)
+          try:
+            auto_config.inline(node)
             res.transitions += 1
-        except Exception as e:  # pylint: disable=broad-except
-          res.violation('C20/transformation-raises/inline',
-                        f'{case}: {type(e).__name__}: {e}', case)
+          except Exception as e:  # pylint: disable=broad-except
+            # a node that inline() cannot express is refused: nothing changed
+            res.counters['inline_refused'] += 1
+            if canon.canon_cfg(c) != before_node:
+              res.violation('C20/inline-refused-but-modified-the-config',
+                            f'{case}: {type(e).__name__}: {e}', case)
+              rejected = True
+              break
+        if rejected:
           continue
         got = build_canon(c)
         res.outcomes['inline:' + got[0]] += 1
@@ -405,6 +431,17 @@ class Fz:
   q: object = 'q'
 
 
+@dataclasses.dataclass
+class Pi:
+  width: object = 1
+  cache: object = dataclasses.field(init=False, default='uncomputed')
+  inner: object = None
+  label: object = 'lbl'
+
+  def __post_init__(self):
+    self.cache = ('computed-from', repr(self.width))
+
+
 def dc_values(depth):
   yield 'leaf'
   yield 7
@@ -415,6 +452,8 @@ def dc_values(depth):
     yield Pt(s)
     yield Pt(1, [s])
     yield Fz(s)
+    yield Pi(s, 'in', 'lab')
+    yield Pi(2, s)
     yield [s, 'l']
     yield (s,)
     yield {'k': s}
@@ -466,7 +505,7 @@ def run_dataclasses(res, depth):
     case = {'dataclass_graph': list(key), 'repr': repr(x)[:200]}
     before = dc_canon(x)
     try:
-      cfg = fdl_dc.convert_dataclasses_to_configs(x)
+      cfg = fdl_dc.convert_dataclasses_to_configs(x, allow_post_init=True)
       built = fdl.build(cfg) if _has_buildable(cfg) else cfg
     except Exception as e:  # pylint: disable=broad-except
       res.violation('C20/transformation-raises/convert_dataclasses',
